@@ -199,6 +199,41 @@ def run(ck: Check):
             )
             if spec_bad >= 5:
                 break
+    # a handler that raises while a frame is being handed over, under a transport that (unlike asyncio's, which closes on the
+    # first exception out of data_received) keeps feeding: the frame being handed over counts as handed over - nothing is
+    # handed over twice and nothing is lost (when the frames behind it are handed over is not judged here)
+    n_raise = 0
+    for trial in range(60 if ck.tier == "thorough" else 12):
+        k = ck.rng.randint(2, 6)
+        frames = [(ck.rng.choice(TYPES), payload(ck.rng, ck.rng.choice([0, 1, 2, 5, 9]))) for _ in range(k)]
+        bad_at = ck.rng.randrange(k)
+        stream = b"".join(enc_frame(*f) for f in frames)
+        cuts = sorted(ck.rng.sample(range(1, len(stream)), min(2, len(stream) - 1))) if trial % 2 else []
+        h, conn, tr = fh.make_plain()
+        orig = conn.process_packet
+        state = {"n": 0}
+
+        def raising(t, data, orig=orig, state=state, bad_at=bad_at):
+            orig(t, data)
+            state["n"] += 1
+            if state["n"] == bad_at + 1:
+                raise ValueError("a subscriber raised")
+
+        conn.process_packet = raising
+        extra = (ck.rng.choice(TYPES), b"\x01\x02")
+        for c in cut(stream, cuts) + [enc_frame(*extra), b""]:
+            try:
+                h.data_received(c)
+            except ValueError:
+                pass
+        n_raise += 1
+        want = frames + [extra]
+        if conn.delivered != want:
+            ck.violation(f"plain-raise-redelivery:{[(t, len(p)) for t, p in frames]}:{bad_at}:{cuts}",
+                         f"the handler of frame {bad_at} raised once; with the stream fed on, the helper handed over {show(conn.delivered)} "
+                         f"for the frames {show(want)} (each exactly once, in order)",
+                         {"frames": [[t, p.hex()] for t, p in frames], "raising_frame": bad_at, "cuts": cuts,
+                          "observed": show(conn.delivered)})
     # model vs implementation
     disagreements = 0
     if ck.driver_ok:
@@ -238,4 +273,6 @@ def run(ck: Check):
     ck.assumptions += [
         "bytes-like chunk types (bytes/bytearray/memoryview) are Python glue: covered by the correspondence only",
         "after the helper closes its transport the event loop makes no further data_received calls",
+        "the raising-handler scenarios feed on after an exception out of data_received, which asyncio's transports never do "
+        "(they close): judged by the oracle only (exactly once, in order), not part of the model",
     ]
